@@ -1249,6 +1249,12 @@ let run_pc_hyrax c =
                  if kk < List.length !values then values := List.mapi (fun i v -> if i = kk then fo.Field.fadd v (f_of_str (arg 1)) else v) !values else ok := false
                | "point" -> pj := int_of_string (arg 0)
                | "comm_swap" -> let i = int_of_string (arg 0) and j = int_of_string (arg 1) in rowsa.(i) <- fst cs.(j)
+               | "comm_mut" -> let i = int_of_string (arg 0) in
+                 let rows = rowsa.(i) in
+                 (match arg 1 with
+                  | "extra_row" when rows <> [] -> rowsa.(i) <- rows @ [ List.nth rows (List.length rows - 1) ]
+                  | "drop_row" when List.length rows >= 2 -> rowsa.(i) <- List.rev (List.tl (List.rev rows))
+                  | _ -> ok := false)
                | "drop_poly" -> let kk = int_of_string (arg 0) in
                  if kk < List.length !sel then begin
                    sel := List.filteri (fun i _ -> i <> kk) !sel; values := List.filteri (fun i _ -> i <> kk) !values end else ok := false
@@ -2152,6 +2158,11 @@ let run_pc_lincode c =
                  if kk < List.length !values then values := List.mapi (fun i v -> if i = kk then fo.Field.fadd v (f_of_str (arg 1)) else v) !values else ok := false
                | "point" -> pj := int_of_string (arg 0)
                | "comm_swap" -> let i = int_of_string (arg 0) and j = int_of_string (arg 1) in cma.(i) <- cm.(j)
+               | "comm_mut" -> let i = int_of_string (arg 0) in
+                 (match arg 1 with
+                  | "meta_rows" -> cma.(i) <- { (cm.(i)) with LinCodeList.cm_n_rows = nn (int_of_nat cm.(i).LinCodeList.cm_n_rows + 1) }
+                  | "meta_cols" -> cma.(i) <- { (cm.(i)) with LinCodeList.cm_n_cols = nn (int_of_nat cm.(i).LinCodeList.cm_n_cols + 1) }
+                  | _ -> ok := false)
                | "proof_from" -> (match (try recs.(int_of_string (arg 0)) with _ -> None) with
                    | Some (`Single (_, _, _, p2)) -> pfs := p2 | _ -> ok := false)
                | "sponge_pre" -> ()
